@@ -2,5 +2,5 @@
 # usage: trymut.sh <patch> <ID> [check args...]  — applies a patch to /repo, runs the check, reverts
 P=$1; ID=$2; shift 2
 cd /repo && git apply "$P" || { echo "PATCH DOES NOT APPLY"; exit 9; }
-cd /verif && ./check $ID --no-evidence "$@" 2>&1 | grep -E "^VIOLATION|^KNOWN|quick:|thorough:|MACHINERY|scenario=" | cut -c1-300 | head -${TRYMUT_LINES:-12}
+cd /verif && ./check $ID --no-evidence "$@" 2>&1 | grep -E "^VIOLATION|quick:|thorough:|MACHINERY|^  scenario=" | cut -c1-300 | head -${TRYMUT_LINES:-12}
 cd /repo && git checkout -- . && git status --short | head -3
